@@ -541,6 +541,20 @@ func (w *W) step(s *State) {
 			set(v)
 		}
 	case *ssa.MakeSlice:
+		if lv := w.get(s, fr, x.Len); lv != nil {
+			if _, conc := concInt(lv); !conc {
+				// a length computed from input: can it ask for more memory than any deployment has?
+				// (an allocation the OS refuses is a fatal, unrecoverable runtime error)
+				esz := amd64Sizes.Sizeof(x.Type().Underlying().(*types.Slice).Elem())
+				if esz > 0 {
+					lt := term(lv)
+					k := ConstI((int64(1)<<36)/esz, lt.S.W)
+					if w.decide(s, BvCmp("bvslt", k, lt)) {
+						panic(pathEnd{fmt.Sprintf("panic: out of memory: makeslice of more than 64 GiB (symbolic length, %d-byte elements)", esz)})
+					}
+				}
+			}
+		}
 		n := w.intOrFork(s, w.get(s, fr, x.Len), 64, "make len")
 		c := w.intOrFork(s, w.get(s, fr, x.Cap), 64, "make cap")
 		if n < 0 || c < n {
